@@ -1434,10 +1434,9 @@ func (bc *Blockchain) tryRunGC(oldHeight uint32) time.Duration {
 		// Old blocks should be removed up to P2-MaxTraceableBlocks which is required for
 		// proper P2P state synchronization, hence align removal of transfers, MPT entries,
 		// blocks and header hashes with this value.
-		syncP := newHeight / uint32(bc.config.StateSyncInterval)
-		syncP--
-		syncP *= uint32(bc.config.StateSyncInterval)
-		tgtBlock = min(tgtBlock, int64(syncP-mtb))
+		// It can be negative early in the chain (nothing to remove then).
+		syncP := (int64(newHeight)/int64(bc.config.StateSyncInterval) - 1) * int64(bc.config.StateSyncInterval)
+		tgtBlock = min(tgtBlock, syncP-int64(mtb))
 	}
 	// Always round to the GCP.
 	tgtBlock /= int64(bc.config.GarbageCollectionPeriod)
